@@ -26,7 +26,7 @@ PROPS = {
     },
     "C04": {
         "level": "fault_enumeration",
-        "quick": [("A", 3000)],
+        "quick": [("A", 8000)],
         "thorough": [("A", 80000), ("C", 20000)],
         "probes": ["panic_in_resize", "panic_in_rehash_in_place", "panic_in_clone", "panic_in_drop", "panic_in_pred", "panic_in_eq", "panic_in_hash_lookup"],
         "rule": "one evaluation = one execution of a scenario; each seeded scenario is first executed fault-free to count the callback invocations of every class inside every operation, then re-executed with the k-th invocation of one class panicking inside one target operation, for every k (thorough) or k in {1, last, 2 random} (quick); non-trivial = a fault fired or a structural event occurred; distinct = distinct signatures (operation kinds + structural events + fired fault class), k-minimum-values sketch",
@@ -116,6 +116,20 @@ PROPS = {
         "probes": ["match_tag_false_positive", "tombstone_created", "rehash_in_place", "small_table", "one_group_table", "multi_group_table"],
         "rule": "one evaluation = one execution of a scenario under one scanner back-end; every scenario is generated and executed under the SSE2 16-byte scanner, then the identical recorded scenario is replayed under the portable 8-byte scanner and the transcripts of content-semantic observables (lengths and sorted contents after every step; return values are compared with the same reference model in both builds) must be identical; in both builds, after every step, every scanner primitive is compared with its byte-by-byte definition on aligned and unaligned windows of the reached control bytes for all tags present, their low-bit neighbours and 0x00/0x01/0x7e/0x7f; non-trivial/distinct as for C01",
     },
+    "C20": {
+        "level": "exploration",
+        "quick": [("A", 8000)],
+        "thorough": [("A", 300000)],
+        "probes": ["serde_round_trip", "serde_err_mid", "serde_lying_hint", "serde_dup_key"],
+        "rule": "one evaluation = one simulated run in which maps and sets reached by a history are serialised with serde_json and read back (cleanly, with short reads, and through a reader that errors or ends at byte k), and in which maps/sets are deserialised (Deserialize and, for sets, deserialize_in_place) from a simulator-owned stream with repeated keys, a claimed length from None/0 to usize::MAX and an error at element k; oracle: round trip equals the original (contents and == both ways), last value per repeated key, an error is reported and leaves no element or block live, the largest allocator request of a deserialisation is below 2 MiB whatever the claimed length; non-trivial/distinct as for C01",
+    },
+    "C19": {
+        "level": "exploration",
+        "quick": [("A", 30000)],
+        "thorough": [("A", 600000), ("C", 60000)],
+        "probes": ["par_split", "par_steal", "par_depth3", "par_early_stop", "par_consumer_panic", "multi_group_table", "small_table"],
+        "rule": "one evaluation = one simulated run in which the rayon adaptors of a map, set or table reached by a history (tables of 4..4096 buckets, any occupancy) are driven through the simulator-owned bridge_unindexed under a recorded decision list: split-or-fold at every node (free form, or a rayon-like split budget for pool sizes 1..64 with budget reset on a 'steal'), the order in which pending subtrees run, consumers that take everything, stop after k items (take_any, find_any, any, all) or panic at item k; oracle: delivered multiset = stored multiset (or a sub-multiset without duplicates of exactly the requested size), par_iter_mut visits each element once, par_drain leaves an empty usable collection holding the same block, undelivered elements dropped exactly once also under a consumer panic, parallel set operations / predicates / par_eq / par_extend / from_par_iter equal their sequential counterparts; distinct = distinct signatures incl. the split-tree shape digest",
+    },
 }
 
 DEFAULT_SEED = 20261002
@@ -137,7 +151,7 @@ NOT_APPLICABLE = {
     "C16": "Send/Sync markers, variance and borrow lifetimes are decided entirely by the type checker on generic obligations: there is no execution, schedule or fault for a deterministic simulator to drive or observe (DESIGN section 11)",
     "C17": "pure integer arithmetic whose stated quantifier is an exhaustive enumeration of capacities x sizes x alignments: no schedule, clock, fault or interleaving; seeded simulation would only be input generation under another name (DESIGN section 11)",
 }
-for _p in ["C19", "C20"]:
+for _p in []:
     NOT_APPLICABLE.setdefault(_p, NA_TECH)
 
 _TB = "trusts rustc/std, the system allocator under SimAlloc, the reference model and oracles in hbsim; x86-64 only; sampling, not enumeration"
@@ -237,5 +251,17 @@ LEVEL_TEXT = {
         "design_ref": "DESIGN.md section 9 C18",
         "note": _TB + "; neon/lsx back-ends and 32-bit/big-endian GroupWord are out of reach on this host",
         "technique": "deterministic simulation across build configurations: same seeded scenarios under both group-scanner back-ends + primitive monitor",
+    },
+    "C20": {
+        "text": "seeded search over collections reached by histories x input streams with stream faults (error at element k, I/O error or EOF at byte k, short reads, lying claimed lengths, repeated keys) at the serde seam; decided by model comparison of the round trip, ledger/allocator balance after errors and the allocator-observed reservation size",
+        "design_ref": "DESIGN.md section 9 C20",
+        "note": _TB + "; serde and serde_json themselves are trusted",
+        "technique": "deterministic simulation with fault injection: simulator-owned Deserializer/MapAccess/SeqAccess and faulty byte reader",
+    },
+    "C19": {
+        "text": "seeded search over schedules: hashbrown's real UnindexedProducers (RawIterRange::split, ParDrainProducer) and rayon's real consumers run under a bridge the simulator owns, so the split tree, the execution order of pending subtrees and the stopping point of short-circuiting or panicking consumers are a recorded decision list that replays exactly; decided by multiset/ledger/allocator oracles and comparison with the sequential counterparts",
+        "design_ref": "DESIGN.md section 9 C19",
+        "note": _TB + "; leaves run to completion one at a time (no preemption inside a leaf): data races in the rayon glue cannot be observed, the check is logical (disjoint ranges, exactly-once, drop accounting); rayon's own adaptors and its pool (pinned to one thread) are real and trusted",
+        "technique": "deterministic simulation of the rayon scheduler: simulator-owned bridge_unindexed with recorded split/steal/order decisions, early-stop and consumer-panic faults",
     },
 }
